@@ -7,7 +7,8 @@
    A step whose thread is not in the right state (e.g. Unlock by a thread that is still waiting)
    is not issued and recorded as skipped.
 
-   [check_case] (a) evaluates the spec oracles (Spec.v) on the observations — verdict 2 — and
+   [check_case] (a) evaluates the spec oracles (Spec.v) on the observations — verdict 2, or 3
+   when the faithful model does not reproduce the failing history — and
    (b) checks that the observations are explained by the model — verdict 1: starting from the
    initial state it keeps the SET of model states compatible with everything observed so far;
    a step applies the call's first event to each of them, explores every interleaving of the
@@ -447,9 +448,43 @@ Definition oracle (c : case) : bool :=
           end)
   end.
 
+(* Is an occupancy violation seen by the harness visible in (hence explained by a model state
+   compatible with) the observations?  Either some quiescent point shows two incompatible
+   holders, or - outer-cancel lock only - the script's last executed step is the shutdown and,
+   just before it, a writer was waiting while a reader was live: the writer is then granted by the
+   shutdown lock possibly before the reader has been told (C13_outer_shutdown_reader_refuted);
+   by the time of the quiescent sample the reader is told, so the statuses look innocent. *)
+Fixpoint last_two {A} (l : list A) : option (option A * A) :=
+  match l with
+  | [] => None
+  | [x] => Some (None, x)
+  | x :: ((y :: _) as l') => match l' with [_] => Some (Some x, y) | _ => last_two l' end
+  end.
+
+Definition occ_explained (l : lockkind) (keys : list key) (ops : list sop) (obs : list sobs) : bool :=
+  existsb (fun o => negb (excl_obs keys (so_st o))) obs
+  || match l, last_two (combine ops obs) with
+     | LOuter, Some (Some (_, prev), (SShutdown, o)) =>
+         negb (so_skip o)
+         && existsb (fun x => match x with TWaitW _ => true | _ => false end) (so_st prev)
+         && existsb (fun x => match x with THoldR _ => true | _ => false end) (so_st prev)
+     | _, _ => false
+     end.
+
 (* 0 = agree and oracle holds; 1 = model and implementation differ; 2 = the implementation's
-   observed behaviour violates the spec. *)
+   observed behaviour violates the spec AND the faithful model reproduces it (these are the cases
+   a known finding may absorb); 3 = the oracle fails and the faithful model does NOT reproduce
+   what was seen: no model state is compatible with the observations, or the failure is one the
+   model never exhibits (a reader cancelled before the grace period / with a foreign cause, a run
+   that never became quiescent, an occupancy violation that the observations do not show). *)
 Definition check_case (c : case) : Z :=
-  if negb (oracle c) then 2 else if negb (model_agrees c) then 1 else 0.
+  if oracle c then (if model_agrees c then 0 else 1)
+  else match c with
+       | CScript l n keys ops obs _ _ occ_bad early badcause stuck =>
+           if early || badcause || stuck then 3
+           else if negb (model_agrees c) then 3
+           else if occ_bad && negb (occ_explained l keys ops obs) then 3
+           else 2
+       end.
 
 Definition run_cases (cs : list (Z * case)) : list (Z * Z) := failures check_case cs.
